@@ -113,19 +113,78 @@ def _oracle(ctx, ncases):
   return evals, nontrivial, samples, findings
 
 
+PUSH_XML = """<mujoco><option cone="elliptic" solver="{solver}" jacobian="{jac}" iterations="100" tolerance="1e-10"/>
+<worldbody><geom name="floor" type="plane" size="5 5 .1"/>
+<body pos="0 0 {z}" quat="{qw} 0 0 {qz}"><freejoint/><geom name="b" type="{gt}" size="{sz}" mass="1"/></body></worldbody>
+<contact><pair geom1="floor" geom2="b" condim="{cd}" friction="{mu1} {mu2} 0.01 0.001 0.001"/></contact></mujoco>"""
+
+
+def _push_cases(ctx, ncases):
+  """a body RESTING on the floor through an explicit pair with anisotropic sliding friction (mu1 != mu2), pushed sideways below
+  and above the slip threshold: in the sticking zone the tangential force is decided by the rows' regularisation, so a row
+  scaling that does not follow the cone shows up as a force outside (ft1/mu1)^2 + (ft2/mu2)^2 <= fn^2"""
+  import mujoco
+  import warp as wp
+  import mujoco_warp as mjw
+  rng = np.random.default_rng(ctx.seed * 1000 + 2424)
+  findings, evals = [], 0
+  for c in range(ncases):
+    mu = rng.uniform(0.15, 1.2, size=2)
+    if abs(mu[0] - mu[1]) < 0.2:
+      mu[1] = mu[0] * (0.3 if rng.random() < 0.5 else 2.5)
+    gt, sz, z = [("box", ".1 .1 .1", 0.0995), ("sphere", ".1", 0.0995), ("capsule", ".06 .1", 0.0595)][int(rng.integers(0, 3))]
+    ang = rng.uniform(0, np.pi)
+    xml = PUSH_XML.format(solver=str(rng.choice(["Newton", "CG"])), jac=str(rng.choice(["dense", "sparse"])), z=z, qw=np.cos(ang / 2), qz=np.sin(ang / 2), gt=gt, sz=sz,
+                          cd=int(rng.choice([3, 4, 6])), mu1=f"{mu[0]:.3f}", mu2=f"{mu[1]:.3f}")
+    mjm = mujoco.MjModel.from_xml_string(xml)
+    mjd = mujoco.MjData(mjm)
+    th = rng.uniform(0, 2 * np.pi)
+    mag = rng.uniform(0.2, 1.6) * min(mu) * 9.81
+    mjd.xfrc_applied[1, :2] = mag * np.array([np.cos(th), np.sin(th)])
+    mujoco.mj_forward(mjm, mjd)
+    m = mjw.put_model(mjm)
+    d = mjw.put_data(mjm, mjd, nworld=1)
+    mjw.forward(m, d)
+    evals += 1
+    nac = int(min(d.nacon.numpy()[0], d.naconmax))
+    if nac == 0 or (d.overflow.numpy() & 0x1FF).any():
+      continue
+    out = wp.zeros(nac, dtype=wp.spatial_vector)
+    mjw.contact_force(m, d, wp.array(np.arange(nac, dtype=np.int32), dtype=int), False, out)
+    cf, fr = out.numpy(), d.contact.friction.numpy()[:nac]
+    for k in range(nac):
+      fn, ft = cf[k, 0], cf[k, 1:3]
+      lhs = np.sqrt((ft[0] / fr[k, 0]) ** 2 + (ft[1] / fr[k, 1]) ** 2)
+      if fn < -1e-4 or lhs > fn * (1 + 5e-3) + 1e-3:
+        findings.append({"what": f"elliptic contact force outside its anisotropic cone (fn={fn:.4g}, sqrt((ft1/mu1)^2+(ft2/mu2)^2)={lhs:.4g}, mu=({fr[k, 0]:.3g},{fr[k, 1]:.3g}))",
+                         "site": "constraint._efc_contact_update / solver._eval_constraint", "trigger_id": "cone-anisotropic", "xml": xml, "xfrc": mjd.xfrc_applied[1].tolist()})
+        break
+    ref = mjd.qacc
+    qa = d.qacc.numpy()[0]
+    if not np.allclose(qa, ref, rtol=2e-2, atol=2e-2 * (1 + np.abs(ref).max())):
+      findings.append({"what": f"qacc of a pushed resting body differs from mj_forward (max |d| {np.abs(qa - ref).max():.3g})", "site": "constraint._efc_contact_update / solver._eval_constraint",
+                       "trigger_id": "pushed-body-qacc", "xml": xml, "xfrc": mjd.xfrc_applied[1].tolist()})
+  return evals, findings
+
+
 def correspondence(ctx):
   from harness.corr import func_corr
   names = [f for f in GEN_FUNCS if f != "solver._eval_constraint"] + ["solver._eval_frictionloss_pt_one", "solver._eval_pt", "solver._eval_cost"]
   fc = func_corr.run(names, ncases=256 if ctx.thorough else 64, seed=ctx.seed)
   fc2 = func_corr.run(["solver._eval_constraint"], ncases=512 if ctx.thorough else 128, seed=ctx.seed + 1, int_ranges={"solver._eval_constraint": (0, 1)})
   evals, nontriv, samples, findings = _oracle(ctx, 24 if ctx.thorough else 6)
+  pe, pf = _push_cases(ctx, 40 if ctx.thorough else 12)
+  evals, nontriv, findings = evals + pe, nontriv + pe, findings + pf
   fns = dict(fc["functions"]); fns.update(fc2["functions"])
   return {"evaluations": fc["evaluations"] + fc2["evaluations"] + evals, "distinct_nontrivial": fc["distinct_outputs"] + fc2["distinct_outputs"] + nontriv,
           "rule": "func-level: random float32 argument tuples incl. 0/+-1/MJ_MINVAL neighbours, all flag combinations; distinct = distinct (function, output); "
-                  "forward-level: random trees dropped on a floor with friction loss and joint limits, both cones/solvers; nontrivial = worlds with nefc>0",
+                  "forward-level: random trees dropped on a floor with friction loss and joint limits, both cones/solvers, explicit floor pairs with anisotropic friction; plus bodies resting on an "
+                  "anisotropic-friction pair and pushed sideways around the slip threshold (cone membership with the per-axis coefficients, qacc vs mj_forward); nontrivial = worlds with nefc>0",
           "samples": [fc["sample"]] + samples, "func_level": fns, "disagreements": fc["disagreements"] + fc2["disagreements"], "findings": findings}
 
 
 def search(ctx, breaks):
   evals, nontriv, samples, findings = _oracle(ctx, 60)
+  pe, pf = _push_cases(ctx, 60)
+  evals, findings = evals + pe, findings + pf
   return {"oracle": "admissibility inequalities and J^T f on real forward() outputs", "cases": evals, "outcome": "witness" if findings else "none", "findings": findings}
